@@ -10,7 +10,11 @@ The model side is call_run of coq/C06_Model.v (the factorial table is the only s
 Families of histories: ladders of one argument at a fixed shape, ladders of the shape, the functions interleaved at one shape, requests at SEVERAL
 shapes with short-path calls in between (inverse whose solution underflows, p = 0 / 1, x = 0, subnormal x, a > 100 outside the quadrature window,
 Binomial_Coefficient with k > n), rows of Binomial_Coefficient (many k at one n, k beyond n included, rows interleaved, Pascal neighbours).
-The x range is covered down to its lower end: every binade to the smallest subnormal and the normal/subnormal border, paired with a ladder of small shapes."""
+The x range is covered down to its lower end: every binade to the smallest subnormal and the normal/subnormal border, paired with a ladder of small shapes.
+The edges of the range of the RESULTS are covered too (tag result-edge): Gamma within a factor 1 .. 1e3 of DBL_MAX at both ends of its domain (x up to 171.6243.. and
+x down to 5.56e-309), at a geometric ladder of distances and 1 .. 1000 ulp either side of the thresholds (computed from the reference by bisection), asked alone,
+through the recurrence, and as the factor Gamma(a) of Upper / Lower; GammaLn over every decade of doubles and where its own result passes DBL_MAX; shapes a below 1e-300
+down to the subnormals; inverses whose solution lies within 1 .. 1e3 of the smallest normal double.  Infinity is accepted exactly where the reference exceeds DBL_MAX."""
 import math, os, re, subprocess, sys, time, shutil
 if hasattr(sys, "set_int_max_str_digits"): sys.set_int_max_str_digits(0)     # factorials with thousands of digits are written into the S3 files
 from fractions import Fraction
@@ -38,6 +42,8 @@ LEVEL_TEXT = ("Theorems (Coq, all inputs / all histories, about the Gallina mode
               "(A_{n-1}/A_n, Bt_n/Bt_{n-1}, Bt_n/A_n), i.e. the n-th convergent of the continued fraction with a_i = -i(i-a), b_i = x+2i+1-a (index advanced every iteration), as long as no clamp triggers; "
               "the reference identity e^-x sum_{k<=n} x^k/k! = 1 - (1/n!) RInt_0^x t^n e^-t used by the certified samples. "
               "Second part (all over the reals, i.e. about the method, not about rounding): GammaLn/Gamma exit for x <= 0, answer for x > 0, Gamma > 0 (C06_gamma_domain); "
+              "Gamma is exp(GammaLn) at EVERY x > 0 however large the result - no level above which the answer is replaced: ln Gamma = GammaLn, Gamma > M iff GammaLn > ln M, two answers of Gamma are ordered as the two GammaLn (C06_gamma_no_threshold; "
+              "in doubles the finite results up to DBL_MAX at x <= 171.6243 and infinity beyond are judged by S4 against the 60-digit reference at a ladder of distances from that threshold); "
               "the recurrence Gamma(x+1) = x Gamma(x) e^d, GammaLn(x+1) = GammaLn(x) + ln x + d with |d| <= 1e-14 for EVERY x in [2^-10, 10001] (C06_lanczos_recurrence_partial part 1, Coq-Interval Taylor models on the Lanczos formula; partial: not x < 2^-10 or x > 10001); "
               "by induction along it |GammaLn(n+1) - ln n!| <= (n+1) 1e-14 and n!/Gamma(n+1) within e^(+-(n+1)1e-14) at every integer n <= 10000 (C06_lanczos_recurrence_partial part 2; partial: integer arguments); "
               "the series branch at every integer shape a = q+1 and every x > 0, whatever the stopping index k: GammaPser = Ptr q!/exp(GammaLn a) with Ptr = e^-x sum_{i=q+1}^{q+1+k} x^i/i!, 0 <= Ptr <= P(x,a) <= 1 for the TRUE P(x,a) = (1/q!) RInt_0^x t^q e^-t, "
@@ -55,7 +61,9 @@ LEVEL_TEXT = ("Theorems (Coq, all inputs / all histories, about the Gallina mode
               "(and of (n-1)!, ln (n-1)! for Gamma/GammaLn), dense around x = a+1 and a = 100, and (b) implementation-side predicates against an independent 60-digit reference "
               "(Python decimal: positive-term series for P with a Stirling log-gamma), evaluated on every generated input: range, P+Q, monotonicity, accuracy, recurrences, Pascal, symmetry, inverse round trip. "
               "Known findings still in the tree: Inv_GammaP = NaN for a > 100 and p within 1e-8 of 1 (K-C06-2); Inv_GammaP unrefined when the solution is a subnormal double (K-C06-4); "
-              "GammaQ slightly negative / GammaP slightly above 1 (by less than 1e-12) for shapes a below about 4e-15 (K-C06-5).")
+              "GammaQ slightly negative / GammaP slightly above 1 (by less than 1e-12) for shapes a below about 4e-15 (K-C06-5); "
+              "GammaLn = +inf for 0 < x < 4.5939e-307 (an intermediate quotient overflows), hence Gamma = inf where 1/x is finite and GammaP = 0 / GammaQ = 1 / NaN at shapes a in that range (K-C06-6); "
+              "GammaLn = +inf on (2.5560e305, 2.5599833e305] where ln Gamma is still below DBL_MAX (K-C06-7).")
 LEVEL_NOTE = ("Coq 8.16.1 kernel; theorems over R use the standard library's real-number axioms (and Classical_Prop.classic through Coquelicot), the Z/nat theorems are axiom-free; "
               "certified samples and the theorem C06_lanczos_recurrence_partial additionally rest on Coq-Interval (primitive 63-bit integers through Bignums; files C06_Proofs_Lanczos1-3.v take about a minute of CPU each). Hand-written model tied by differential correspondence "
               "(extraction with ExtrOcamlBasic only); exp, log, sqrt, pow, floor are the same libm functions on both sides (modelled by exp, ln, sqrt, Rpower, Int_part in R). The two uncapped while loops carry a fuel of 100000 iterations "
@@ -174,13 +182,115 @@ _selftest()
 def gl_terms(x):
     """sum of the magnitudes of the intermediate terms of GammaLn(x) = (x+.5) log(x+g) - (x+g) + log(c*sum/x)"""
     t = x + 5.2421875
-    return abs((x + 0.5) * math.log(t)) + abs(t) + abs(math.log(2.5066282746310005 / x)) + 1.0
+    return abs((x + 0.5) * math.log(t)) + abs(t) + abs(math.log(2.5066282746310005) - math.log(x)) + 1.0     # = |log(c/x)|, written so that a subnormal x does not overflow the quotient
 
 
 def gl_slack(x):
     """a priori absolute rounding slack of one GammaLn evaluation: 4 eps per unit of intermediate magnitude
     (log <= 1 ulp, one product, one sum per term) + 8 eps for the truncation of Lanczos' series (documented 1e-15)"""
     return EPS * (4 * gl_terms(x) + 8)
+
+
+# ---- Gamma / GammaLn judged at every output magnitude (results up to DBL_MAX, arguments down to the subnormals and up to 1e308)
+DBL_MAX = sys.float_info.max
+_COF = [57.1562356658629235, -59.5979603554754912, 14.1360979747417471, -0.491913816097620199, .339946499848118887e-4, .465236289270485756e-4, -.983744753048795646e-4,
+        .158088703224912494e-3, -.210264441724104883e-3, .217439618115212643e-3, -.164318106536763890e-3, .844182239838527433e-4, -.261908384015814087e-4, .368991826595316234e-5]
+
+
+def gl_slack_d(x):
+    """gl_slack as a Decimal, without overflow of its own for arguments up to 1e308"""
+    with localcontext(_CTX):
+        X = D(x); t = X + D("5.2421875")
+        terms = abs((X + D("0.5")) * t.ln()) + t + abs((D("2.5066282746310005") / X).ln()) + 1
+        return D(EPS) * (4 * terms + 8)
+
+
+def gln_arg_overflows(x):
+    """region label only (K-C06-6): the argument c*sum/x of GammaLn's last logarithm exceeds DBL_MAX (x below 4.5939e-307)"""
+    s = 0.999999999999997092; y = x
+    for c in _COF:
+        y += 1.0; s += c / y
+    return math.isinf(2.5066282746310005 * s / x)
+
+
+def gln_region(x, v):
+    """suffix of a signature about GammaLn / Gamma at argument x with answer v: the two bands where an intermediate of GammaLn overflows although
+    the result does not (K-C06-6: x < 4.5939e-307, c*sum/x; K-C06-7: the last 1/700 below the true overflow of ln Gamma at x = 2.55998e305, (x+.5) log(x+g))"""
+    if isinstance(v, float) and v == math.inf:
+        if 0 < x < 1e-300 and gln_arg_overflows(x): return ":tiny-x-intermediate-overflow"
+        if x > 2.5e305 and math.isinf((x + 0.5) * math.log(x + 5.2421875)): return ":huge-x-intermediate-overflow"
+    return ""
+
+
+def gammaln_check(x, v):
+    """None, or (region suffix, message): GammaLn(x) = v against the 60-digit reference, at every magnitude; +inf is right only where ln Gamma(x) > DBL_MAX (to the slack)"""
+    with localcontext(_CTX):
+        ref = d_lgamma(D(x)); sl = gl_slack_d(x) + D(EPS) * abs(ref)
+        if math.isnan(v) or v == -math.inf: ok = False
+        elif v == math.inf: ok = ref + sl >= D(DBL_MAX)
+        else: ok = abs(D(v) - ref) <= sl
+        if ok: return None
+        return gln_region(x, v), f"GammaLn({x!r}) = {v!r}, reference {float(ref) if ref < D(DBL_MAX) else '%.17E' % ref!r} (allowed {float(sl):.3g})"
+
+
+def gamma_check(x, g):
+    """None, or (region suffix, message): Gamma(x) = g against exp of the 60-digit ln Gamma, relative slack of one GammaLn evaluation + 4 eps;
+    +inf is the right answer exactly where Gamma(x) exceeds DBL_MAX (either answer inside the slack of that threshold)"""
+    with localcontext(_CTX):
+        lref = d_lgamma(D(x)); sl = gl_slack_d(x) + D(4 * EPS)
+        if lref > 720:       # Gamma(x) > 1e312: overflow
+            if g == math.inf: return None
+            return gln_region(x, g), f"Gamma({x!r}) = {g!r}, but ln Gamma = {float(lref) if lref < D(DBL_MAX) else math.inf!r}: the result exceeds DBL_MAX"
+        ref = lref.exp()
+        if math.isnan(g) or g == -math.inf: ok = False
+        elif g == math.inf: ok = ref * (1 + sl) >= D(DBL_MAX)
+        else: ok = abs(D(g) - ref) <= sl * ref
+        if ok: return None
+        return gln_region(x, g), f"Gamma({x!r}) = {g!r}, reference {'%.17E' % ref} (relative {float(abs(D(g) - ref) / ref) if math.isfinite(g) else math.inf:.3g}, allowed {float(sl):.3g})"
+
+
+def gamma_ref_float(x):
+    """the reference Gamma(x) as a double (inf above DBL_MAX)"""
+    with localcontext(_CTX):
+        lref = d_lgamma(D(x))
+        if lref > 720: return math.inf
+        r = lref.exp()
+        return float(r) if r < D(DBL_MAX) else math.inf
+
+
+def gamma_recurrence_check(x, g0, g1, s):
+    """None, or (region suffix, message): Gamma(x+1) = g1 against x * Gamma(x) = x * g0 to the relative slack s, infinity included:
+    an infinite Gamma(x+1) is right only when x Gamma(x) reaches DBL_MAX (to the slack), an infinite Gamma(x) only with an infinite Gamma(x+1) (x >= 1)"""
+    if math.isnan(g0) or math.isnan(g1): return gln_region(x, g0), f"Gamma({x!r}) = {g0!r}, Gamma({x + 1.0!r}) = {g1!r}"
+    if math.isfinite(g0) and math.isfinite(g1):
+        if abs(Fraction(g1) - Fraction(x) * Fraction(g0)) <= Fraction(s) * abs(Fraction(g1)): return None
+        return "", f"Gamma({x+1.0!r}) = {g1!r} but x Gamma(x) = {x * g0!r} (relative {float(abs(Fraction(g1) - Fraction(x) * Fraction(g0)) / abs(Fraction(g1))) if g1 else math.inf:.3g}, allowed {s:.3g})"
+    if math.isfinite(g0):        # Gamma(x+1) = inf
+        if g1 == math.inf and Fraction(x) * Fraction(g0) * (1 + Fraction(s)) >= Fraction(DBL_MAX): return None
+        return gln_region(x + 1.0, g1), f"Gamma({x+1.0!r}) = {g1!r} but x Gamma(x) = {x!r} * {g0!r} is a finite double"
+    if g0 == math.inf and g1 == math.inf: return None
+    # Gamma(x) = inf with a finite Gamma(x+1): right only if Gamma(x+1)/x exceeds DBL_MAX (tiny x)
+    if g0 == math.inf and Fraction(g1) * (1 + Fraction(s)) >= Fraction(DBL_MAX) * Fraction(x): return None
+    return gln_region(x, g0), f"Gamma({x!r}) = {g0!r} but Gamma(x+1)/x = {g1!r}/{x!r} is a finite double"
+
+
+def _solve(f, lo, hi):
+    """bisection on doubles: the last lo with not f(lo) (f monotone false -> true)"""
+    for _ in range(1200):
+        mid = lo + (hi - lo) / 2
+        if mid == lo or mid == hi: break
+        if f(mid): hi = mid
+        else: lo = mid
+    return lo
+
+
+with localcontext(_CTX):
+    _LN_MAX = D(DBL_MAX).ln()
+    X_GAMMA_TOP = _solve(lambda x: d_lgamma(D(x)) > _LN_MAX, 170.0, 172.0)            # 171.6243769563027: Gamma(x) = DBL_MAX
+    X_GAMMA_BOT = _solve(lambda x: d_lgamma(D(x)) < _LN_MAX, 1e-310, 1e-300)          # 5.562684646268e-309: Gamma(x) = DBL_MAX from below (Gamma ~ 1/x)
+    X_LN_TOP = _solve(lambda x: d_lgamma(D(x)) > D(DBL_MAX), 1e305, 1e306)            # 2.5599833e305: ln Gamma(x) = DBL_MAX
+X_GLN_T = _solve(lambda x: not gln_arg_overflows(x), 1e-308, 1e-306)                  # 4.5939e-307: below it c*sum/x overflows (K-C06-6)
+assert 171.62 < X_GAMMA_TOP < 171.63 and 5.5e-309 < X_GAMMA_BOT < 5.6e-309 and 2.55e305 < X_LN_TOP < 2.57e305 and 4.59e-307 < X_GLN_T < 4.6e-307
 
 
 # ------------------------------------------------------------------------------------------------ generator
@@ -213,6 +323,49 @@ def _ulps(rng, v, kmax=1000):
     k = int(round(10 ** rng.uniform(0, math.log10(kmax)))); d = rng.choice([-math.inf, math.inf])
     for _ in range(k): v = math.nextafter(v, d)
     return v
+
+
+def _around(rng, v, emin=-16.0, emax=-0.5):
+    """v itself, v at 1 .. 1000 ulp, v at relative distances 10^emin .. 10^emax (a geometric ladder), either side"""
+    r = rng.random()
+    if r < 0.08: return v
+    if r < 0.40: return _ulps(rng, v)
+    return v * (1 + rng.choice([-1, 1]) * 10 ** rng.uniform(emin, emax))
+
+
+def _gamma_edge_x(rng):
+    """arguments at which the RESULT of Gamma lies at the edge of the double range: Gamma(x) within a factor 1 .. 1e3 (and a little beyond, both sides)
+    of DBL_MAX at the upper end of the domain (x = 171.6243.., finite below, infinite above) and at its lower end (Gamma ~ 1/x at x = 5.56e-309 .. 5.6e-306)"""
+    r = rng.random()
+    if r < 0.34: return X_GAMMA_TOP - 10 ** rng.uniform(-13, 0.2)          # finite results, distance ladder below the threshold (factor 1 .. 3e3 below DBL_MAX)
+    if r < 0.46: return _ulps(rng, X_GAMMA_TOP)
+    if r < 0.56: return X_GAMMA_TOP + 10 ** rng.uniform(-13, 0.5)          # overflow side: infinity is the answer
+    if r < 0.70: return rng.uniform(170.2, X_GAMMA_TOP)
+    if r < 0.74: return rng.choice([170.5, 171.0, 171.25, 171.5, 171.6, 171.62, 171.624, 172.0, 175.0])
+    if r < 0.86: return max(DENORM_MIN, X_GAMMA_BOT * 10 ** rng.uniform(-0.5, 3.3))      # lower end: Gamma within 1 .. 2e3 of DBL_MAX, subnormal and normal x
+    if r < 0.93: return max(DENORM_MIN, _around(rng, rng.choice([X_GAMMA_BOT, DBL_MIN, X_GLN_T])))
+    return _tiny_x(rng)
+
+
+def _gammaln_edge_x(rng):
+    """arguments at the edges of GammaLn's range: the whole ladder of decades down to the smallest subnormal and up to DBL_MAX, the point where
+    ln Gamma(x) itself passes DBL_MAX (x = 2.56e305), results within 1 .. 1e3 of it"""
+    r = rng.random()
+    if r < 0.25: return X_LN_TOP * (1 - 10 ** rng.uniform(-16, 0))         # finite results up to DBL_MAX: distance ladder below
+    if r < 0.35: return _ulps(rng, X_LN_TOP)
+    if r < 0.45: return min(DBL_MAX, X_LN_TOP * (1 + 10 ** rng.uniform(-16, 2.5)))
+    if r < 0.65: return 10 ** rng.uniform(4, 308.2)                        # every decade upwards
+    if r < 0.75: return max(DENORM_MIN, _around(rng, rng.choice([X_GLN_T, DBL_MIN, X_GAMMA_BOT])))
+    return _tiny_x(rng)
+
+
+def _tiny_shape(rng):
+    """the lower end of the shape range (0, 1e4]: every decade below 1e-300 to the smallest subnormal, the normal/subnormal border, the point where 1/a passes DBL_MAX"""
+    r = rng.random()
+    if r < 0.35: return 10 ** rng.uniform(-307.6, -300)
+    if r < 0.60: return max(DENORM_MIN, _around(rng, rng.choice([X_GLN_T, DBL_MIN, X_GAMMA_BOT])))
+    if r < 0.80: return 2.0 ** rng.uniform(-1074, -1022)
+    return DENORM_MIN * rng.choice([1, 2, 3, rng.randint(1, 1000), 2 ** rng.randint(0, 51)])
 
 
 def _tiny_x(rng):
@@ -356,6 +509,7 @@ def _short_path_call(rng, shapes):
 def _ordinary_call(rng, a):
     """one ordinary request at shape a"""
     H = hx; op = rng.choice(["gammaq", "gammaq", "gammap", "gammap", "upper", "lower", "invp", "invq", "gammaln", "gamma"])
+    if op in ("gammaln", "gamma") and 170.0 < a < 173.0: return f"{op} {H(a if rng.random() < 0.7 else a - 1.0)}"     # the end of Gamma's domain: asked at the shape itself
     if op in ("gammaln", "gamma"): return f"{op} {H(min(a, 170.0) if rng.random() < 0.7 else min(a + 1.0, 171.0))}"
     if op in ("invp", "invq"):
         p = _inv_p(rng, a)
@@ -372,6 +526,7 @@ def _shape(rng):
     if r < 0.52: return 10 ** (rng.uniform(-8, -1.5) if rng.random() < 0.8 else rng.uniform(-300, -8))
     if r < 0.62: return _near(rng, rng.choice([1.0, 100.0]))
     if r < 0.72: return rng.choice([101.0, 150.0, 1000.0, 10 ** rng.uniform(2, 4)])
+    if r < 0.76: return X_GAMMA_TOP - 10 ** rng.uniform(-13, 0.2)      # Gamma(a) within 1 .. 3e3 of DBL_MAX: the factor of Upper / Lower
     return 10 ** rng.uniform(-1, 2)
 
 
@@ -457,7 +612,10 @@ def _seq_case(rng):
     elif fam < 0.80:      # GammaLn / Gamma: ladders of x, x and x+1, near integers
         tag = "gamma-ladder"
         x0 = rng.choice([float(rng.randint(1, 170)), rng.uniform(0.01, 170.0), 10 ** rng.uniform(-6, 0), a if a <= 170 else 100.0])
-        for x in _ladder(rng, x0, 1e-10, 170.5, n):
+        top_x = 170.5
+        if rng.random() < 0.25:      # the upper end of Gamma's domain: results up to DBL_MAX, and infinity beyond
+            x0 = min(max(_gamma_edge_x(rng), 170.2), 172.5); top_x = X_GAMMA_TOP + 0.9
+        for x in _ladder(rng, x0, 1e-10, top_x, n):
             op = rng.choice(["gammaln", "gamma"])
             calls.append(f"{op} {H(x)}")
             if rng.random() < 0.3 and x + 1 <= 171.0: calls.append(f"{op} {H(x + 1.0)}")
@@ -528,6 +686,43 @@ def generate(rng, tier):
         cs.append(Case(f"gammaln {hx(x)}", ("gammaln", "exit")))
     cs.append(Case(f"gamma {hx(-2.0)}", ("gamma", "exit")))
     cs.append(Case(f"gamma {hx(171.7)}", ("gamma", "overflow")))
+    # ---- the edges of the range of the RESULT: Gamma within 1 .. 1e3 of DBL_MAX (upper end x = 171.62.., lower end x = 5.6e-309 ..), asked alone,
+    #      as Gamma(x+1) of the recurrence, and as the factor Gamma(a) of Upper / Lower; GammaLn over every decade of doubles and where its result passes DBL_MAX.
+    #      The two bands in which an intermediate of GammaLn overflows (K-C06-6, K-C06-7) are visited under a quota.
+    kq = {}      # quota per stream of cases inside the regions of K-C06-6 (tiny argument / shape) and K-C06-7 (huge argument)
+    def edge_ok(x, stream):
+        if x < X_GLN_T * 1.0000001 or (x > 2.55e305 and x <= X_LN_TOP * 1.0000001):
+            kq.setdefault(stream, 60 if big else 10)
+            if kq[stream] <= 0: return False
+            kq[stream] -= 1
+        return True
+    for _ in range(4000 if big else 300):
+        x = _gamma_edge_x(rng); r = rng.random()
+        if not edge_ok(x, 'gamma'): x = X_GAMMA_TOP - 10 ** rng.uniform(-13, 0.2)
+        if r < 0.35: cs.append(Case(f"gamma {hx(x)}", ("gamma", "result-edge")))
+        elif r < 0.65: cs.append(Case(f"gamrec {hx(x - 1.0 if x > 2 else x)}", ("gamma", "recurrence", "result-edge")))
+        elif r < 0.75: cs.append(Case(f"gamrec {hx(x)}", ("gamma", "recurrence", "result-edge")))
+        else:
+            xx = _rand_x(rng, x) if rng.random() < 0.7 else rng.choice([0.5, 1.0, 160.0, x - 1.0 if x > 2 else x, x + 1.0])
+            cs.append(Case(f"pq {hx(max(xx, 0.0))} {hx(x)}", ("pq", "result-edge", "a>100" if x > 100 else "a<=100")))
+    for _ in range(1500 if big else 120):
+        x = _gammaln_edge_x(rng)
+        if not edge_ok(x, 'gammaln-lo' if x < 1 else 'gammaln-hi'): x = 10 ** rng.uniform(4, 305)
+        cs.append(Case(f"gammaln {hx(x)}", ("gammaln", "result-edge")))
+    # ---- the lower end of the shape range (0, 1e4]: below 1e-300 down to the subnormals (the region of K-C06-6 under the same quota)
+    for _ in range(600 if big else 40):
+        a = _tiny_shape(rng)
+        if not edge_ok(a, 'shape'): a = 10 ** rng.uniform(-306.3, -300)
+        x = _rand_x(rng, a) if rng.random() < 0.5 else rng.choice([_tiny_x(rng), 10 ** rng.uniform(-12, 0), 0.5, 1.0, 1.0 + a, 3.0, 30.0])
+        r = rng.random()
+        if r < 0.7: cs.append(Case(f"pq {hx(x)} {hx(a)}", ("pq", "tiny-shape")))
+        elif r < 0.85: cs.append(Case(f"invp {hx(_inv_p(rng, a))} {hx(a)}", ("inverse", "tiny-shape")))
+        else: cs.append(Case(f"qmono {hx(a)} {flist(sorted([x, 0.0, 1e-300, 1e-3, 0.5, 1.0, 1.0 + a, 2.0, 40.0]))}", ("monotone", "tiny-shape")))
+    # ---- inverses whose SOLUTION lies at the lower edge of the normal range (within 1 .. 1e3 of the smallest normal double; below it: K-C06-4)
+    for _ in range(400 if big else 30):
+        xt = DBL_MIN * 10 ** rng.uniform(0.0, 3.0); a = 10 ** rng.uniform(-3.5, -0.5)
+        p = float(d_P(xt, a))
+        if P_LO < p < P_HI: cs.append(Case(f"invp {hx(p)} {hx(a)}", ("inverse", "solution-at-smallest-normal")))
     # ---- P, Q, Upper, Lower over the quantifier
     for _ in range(40000 if big else 2200):
         a = _rand_a(rng); x = _rand_x(rng, a)
@@ -655,7 +850,11 @@ def nontrivial(c, io):
 
 # ------------------------------------------------------------------------------------------------ S4 predicates
 def acc_tol(a): return 1e-12 if a <= 100.0 else 1e-3
-def region(a): return "quadrature" if a > 100.0 else "series-cf"     # suffix of the signatures: which method served the request
+def region(a):
+    """suffix of the signatures: which method served the request; shapes below 4.5939e-307, where GammaLn(a) overflows inside (K-C06-6), are a region of their own"""
+    if a > 100.0: return "quadrature"
+    if 0 < a < 1e-300 and gln_arg_overflows(a): return "series-cf:shape-below-4.6e-307"
+    return "series-cf"
 
 
 def range_region(a, v):
@@ -736,7 +935,7 @@ def _seq_predicates(c, io, v, ex):
             if not (abs(pp + q - 1.0) <= 2 * EPS): out.append(("gammaq:p-plus-q", f"P + Q - 1 = {pp + q - 1.0!r} at (x={float.fromhex(k[1])!r}, a={float.fromhex(k[2])!r}) across a history"))
         if k[0] == "upper" and ("lower",) + k[1:] in first and ("gamma", k[2]) in first:
             lo = first[("lower",) + k[1:]]; g = first[("gamma", k[2])]
-            if math.isfinite(g) and g > 0 and not (abs(q + lo - g) <= 6 * EPS * g):
+            if math.isfinite(g) and g > 0 and not (math.isfinite(q) and math.isfinite(lo) and abs(Fraction(q) + Fraction(lo) - Fraction(g)) <= Fraction(6 * EPS) * Fraction(g)):
                 out.append(("gammaq:upper-plus-lower", f"Upper + Lower = {q + lo!r}, Gamma = {g!r} at (x={float.fromhex(k[1])!r}, a={float.fromhex(k[2])!r}) across a history"))
         if k[0] == "fact" and int(k[1]) >= 1 and ("fact", str(int(k[1]) - 1)) in first and q != first[("fact", str(int(k[1]) - 1))] * int(k[1]):
             out.append(("factorial:recurrence", f"Factorial({k[1]}) = {q!r} is not {k[1]} * Factorial({int(k[1]) - 1}) across a history"))
@@ -751,9 +950,10 @@ def _seq_predicates(c, io, v, ex):
                     out.append(("binomial:pascal", f"C({n_},{k_}) = {q!r} but C({n_ - 1},{k_ - 1}) + C({n_ - 1},{k_}) = {first[up] + first[dn]!r} across a history"))
         if k[0] == "gamma":
             x = float.fromhex(k[1]); k1 = ("gamma", hx(x + 1.0))
-            if k1 in first and math.isfinite(first[k1]):
+            if k1 in first:
                 sl = gl_slack(x) + gl_slack(x + 1.0) + 4 * EPS; g1 = first[k1]
-                if not (abs(g1 - x * q) <= sl * abs(g1)): out.append(("gamma:recurrence", f"Gamma({x + 1.0!r}) = {g1!r} but x Gamma(x) = {x * q!r} across a history (allowed {sl:.3g})"))
+                bad = gamma_recurrence_check(x, q, g1, sl)
+                if bad: out.append(("gamma:recurrence" + bad[0], bad[1] + " across a history"))
     # Q does not increase (P does not decrease) with x at fixed a, whatever the order of the calls
     for fn, sgn in (("gammaq", 1.0), ("gammap", -1.0)):
         bya = {}
@@ -830,29 +1030,25 @@ def predicates(c, io):
             return out
         if ex: return [(op + ":exit", f"{op}({x!r}) exited")]
         if op == "gammaln":
-            ref = math.lgamma(x) if x < 1e300 else None
-            with localcontext(_CTX): refd = float(d_lgamma(D(x))) if x <= 1e6 else ref
-            if not (abs(v[0] - refd) <= gl_slack(x) + EPS * abs(refd)):
-                out.append(("gammaln:accuracy", f"GammaLn({x!r}) = {v[0]!r}, reference {refd!r} (allowed {gl_slack(x):.3g})"))
+            bad = gammaln_check(x, v[0])
+            if bad: out.append(("gammaln:accuracy" + bad[0], bad[1]))
         elif op == "gamma":
-            if x <= 171.0:
-                ref = math.gamma(x)
-                if not (abs(v[0] - ref) <= (gl_slack(x) + 4 * EPS) * ref): out.append(("gamma:accuracy", f"Gamma({x!r}) = {v[0]!r}, reference {ref!r}"))
+            bad = gamma_check(x, v[0])       # every x: finite results up to DBL_MAX, infinity exactly beyond
+            if bad: out.append(("gamma:accuracy" + bad[0], bad[1]))
         else:
             l0, l1, g0, g1 = v[:4]
-            with localcontext(_CTX): r0 = float(d_lgamma(D(x))); r1 = float(d_lgamma(D(x + 1.0)))
-            if not (abs(l0 - r0) <= gl_slack(x) + EPS * abs(r0)): out.append(("gammaln:accuracy", f"GammaLn({x!r}) = {l0!r}, reference {r0!r} (allowed {gl_slack(x):.3g})"))
-            if not (abs(l1 - r1) <= gl_slack(x + 1) + EPS * abs(r1)): out.append(("gammaln:accuracy", f"GammaLn({x+1!r}) = {l1!r}, reference {r1!r}"))
+            for xx, l in ((x, l0), (x + 1.0, l1)):
+                bad = gammaln_check(xx, l)
+                if bad: out.append(("gammaln:accuracy" + bad[0], bad[1]))
             s = gl_slack(x) + gl_slack(x + 1.0) + 4 * EPS
             # Gamma(x+1) = x Gamma(x)   and   GammaLn(x+1) = GammaLn(x) + ln x
-            if math.isfinite(g1) and not (abs(g1 - x * g0) <= s * abs(g1)):
-                out.append(("gamma:recurrence", f"Gamma({x+1!r}) = {g1!r} but x Gamma(x) = {x * g0!r} (relative {abs(g1 - x*g0)/abs(g1):.3g}, allowed {s:.3g})"))
-            if not (abs(l1 - l0 - math.log(x)) <= s + EPS * abs(math.log(x))):
-                out.append(("gammaln:recurrence", f"GammaLn({x+1!r}) - GammaLn({x!r}) - ln x = {l1 - l0 - math.log(x):.3g} (allowed {s:.3g})"))
-            if x + 1.0 <= 171.0:
-                for xx, g in ((x, g0), (x + 1.0, g1)):
-                    ref = math.gamma(xx)
-                    if not (abs(g - ref) <= (gl_slack(xx) + 4 * EPS) * ref): out.append(("gamma:accuracy", f"Gamma({xx!r}) = {g!r}, reference {ref!r} (relative {abs(g-ref)/ref:.3g})"))
+            bad = gamma_recurrence_check(x, g0, g1, s)
+            if bad: out.append(("gamma:recurrence" + bad[0], bad[1]))
+            if not (math.isfinite(l0) and math.isfinite(l1) and abs(l1 - l0 - math.log(x)) <= s + EPS * abs(math.log(x))):
+                out.append(("gammaln:recurrence" + gln_region(x, l0), f"GammaLn({x+1!r}) - GammaLn({x!r}) - ln x = {l1 - l0 - math.log(x):.3g} (allowed {s:.3g})"))
+            for xx, g in ((x, g0), (x + 1.0, g1)):
+                bad = gamma_check(xx, g)
+                if bad: out.append(("gamma:accuracy" + bad[0], bad[1]))
             if x == math.floor(x) and x <= 23:     # Gamma(n) = (n-1)!
                 f = float(math.factorial(int(x) - 1))
                 if not (abs(g0 - f) <= (gl_slack(x) + 4 * EPS) * f): out.append(("gamma:factorial", f"Gamma({int(x)}) = {g0!r}, ({int(x)}-1)! = {f!r}"))
@@ -877,16 +1073,20 @@ def predicates(c, io):
         if p is not None:
             if not (0.0 <= p <= 1.0): out.append(("gammap:range:" + range_region(a, p), f"GammaP{where} = {p!r} lies outside [0,1]"))
             if not (abs(p - P) <= tol): out.append(("gammap:accuracy:" + region(a), f"GammaP{where} = {p!r}, reference {P!r}: error {abs(p-P):.3g} > {acc_tol(a):g}"))
-        if op in ("upper", "lower") and x > 0 and a <= 171.0:
-            # asked alone (inside a history): Gamma(a) Q(x,a) with the reference Gamma (glibc tgamma, a few ulp) and one GammaLn evaluation's slack
-            G = math.gamma(a); R = Q if op == "upper" else P
-            if math.isfinite(G) and not (abs(v[0] - G * R) <= (tol + gl_slack(a) + 8 * EPS) * G):
+        if op in ("upper", "lower") and x > 0 and a <= 172.0:
+            # asked alone (inside a history): Gamma(a) Q(x,a) with the reference Gamma (60 digits; finite up to a = 171.6243) and one GammaLn evaluation's slack
+            G = gamma_ref_float(a); R = Q if op == "upper" else P
+            if math.isfinite(G) and G * (1 + tol + gl_slack(a) + 8 * EPS) < DBL_MAX and not (abs(v[0] - G * R) <= (tol + gl_slack(a) + 8 * EPS) * G):
                 out.append((op + ":accuracy:" + region(a), f"{'Upper' if op == 'upper' else 'Lower'}_Incomplete_Gamma{where} = {v[0]!r}, Gamma_ref*{'Q' if op == 'upper' else 'P'}_ref = {G * R!r}"))
         if op == "pq":
-            if not (abs(p + q - 1.0) <= 2 * EPS): out.append(("gammaq:p-plus-q", f"P + Q - 1 = {p + q - 1.0!r} at {where}"))
+            if not (abs(p + q - 1.0) <= 2 * EPS): out.append(("gammaq:p-plus-q" + (":shape-below-4.6e-307" if region(a).endswith("4.6e-307") else ""), f"P + Q - 1 = {p + q - 1.0!r} at {where}"))
+            bad = gamma_check(a, g)       # the factor Gamma(a) of Upper and Lower, at every magnitude (finite up to DBL_MAX)
+            if bad: out.append(("gamma:accuracy" + bad[0], bad[1] + f" [the Gamma(a) of Upper/Lower at {where}]"))
+            if math.isfinite(g) and g > 0 and not (math.isfinite(up) and math.isfinite(lo)) and math.isfinite(q) and math.isfinite(p):
+                out.append(("gammaq:upper-plus-lower", f"Upper = {up!r}, Lower = {lo!r} with a finite Gamma = {g!r} at {where}"))
             if math.isfinite(g) and g > 0 and math.isfinite(up) and math.isfinite(lo):
-                # Upper + Lower = Gamma: two products and one sum of numbers below Gamma
-                if not (abs(up + lo - g) <= 6 * EPS * g): out.append(("gammaq:upper-plus-lower", f"Upper + Lower = {up + lo!r}, Gamma = {g!r} at {where}"))
+                # Upper + Lower = Gamma: two products and one sum of numbers below Gamma (the sum taken exactly: it may exceed DBL_MAX by an ulp)
+                if not (abs(Fraction(up) + Fraction(lo) - Fraction(g)) <= Fraction(6 * EPS) * Fraction(g)): out.append(("gammaq:upper-plus-lower", f"Upper + Lower = {up + lo!r}, Gamma = {g!r} at {where}"))
                 if not (abs(up - g * Q) <= (tol + 4 * EPS) * g): out.append(("upper:accuracy:" + region(a), f"Upper_Incomplete_Gamma{where} = {up!r}, Gamma*Q_ref = {g * Q!r}"))
                 if not (abs(lo - g * P) <= (tol + 4 * EPS) * g): out.append(("lower:accuracy:" + region(a), f"Lower_Incomplete_Gamma{where} = {lo!r}, Gamma*P_ref = {g * P!r}"))
     elif op == "seq":
@@ -1014,7 +1214,7 @@ def extra(ctx, rng):
 
     def run_shard(s):
         todo = list(shards[s]); bad = []
-        vf = os.path.join(coq, f"cases_C06_{s}.v")
+        vf = os.path.join(coq, f"cases_C06_{os.getpid()}_{s}.v")     # the process id keeps concurrent runs of this check (seed tests) from overwriting each other's files
         for _ in range(len(todo) + 1):
             if not todo: break
             open(vf, "w").write(_S3_HEAD + "".join(g["txt"] for g in todo))
@@ -1031,7 +1231,7 @@ def extra(ctx, rng):
         for ext in (".v", ".vo", ".vok", ".vos", ".glob"):
             try: os.remove(vf[:-2] + ext)
             except OSError: pass
-        try: os.remove(os.path.join(coq, f".cases_C06_{s}.aux"))
+        try: os.remove(os.path.join(coq, f".cases_C06_{os.getpid()}_{s}.aux"))
         except OSError: pass
         return bad
 
